@@ -236,7 +236,12 @@ def gen_plan(rng, tier, i, seed):
         "replay": {"hashseed": rng.choice([0, 1, 2, 3, 4, 5, 6, 7]), "cwd": rng.choice(["run", "world", "root"]),
                    "tmp": rng.choice(["default", "run"]),
                    "clock": {"start": rng.choice([1.7e9, 2.1e9]), "jumps": [rng.choice([0.1, -3.0, 86400.0]), 1.0]},
-                   "per_gene": rng.random() < 0.5},
+                   "per_gene": rng.random() < 0.5,
+                   # history between the run and the replay: the user's profile file (the one the run was given)
+                   # is regenerated with another depth table, or is gone (another machine); the archive is
+                   # self-contained and the replay is not given the file
+                   "profile_file_after": (random.Random(f"C17:pfa:{seed}:{i}").choice(["changed", "removed", "kept"])
+                                          if profile_opts is not None else "kept")},
     }
 
 
@@ -732,6 +737,20 @@ def run_segment(seg):
             SIM.fire("out_enospc")
     else:  # replay
         arch = prefix + ".tar.gz"
+        pf = os.path.join(rd, "profile-with-options.yml")
+        if seg.get("profile_file_after", "kept") != "kept" and os.path.exists(pf):
+            if seg["profile_file_after"] == "removed":
+                os.remove(pf)
+            else:
+                import yaml
+
+                doc = yaml.safe_load(open(pf))
+                for k, v in doc.items():
+                    if k != "options" and isinstance(v, dict):
+                        doc[k] = {r: ([x * 3 + 7 if isinstance(x, (int, float)) and not isinstance(x, bool) else x for x in d] if isinstance(d, list) else d) for r, d in v.items()}
+                with open(pf, "w") as f:
+                    f.write(yaml.dump(doc, default_flow_style=None))
+            SIM.fire("profile_file_" + seg["profile_file_after"])
         def pg(i):
             return os.path.join(rd, f"out-{seg['tag']}-{i}.{seg['out']}")
 
